@@ -971,7 +971,19 @@ func cmdDigest(t *testing.T, args []string) int {
 	n, _ := strconv.Atoi(args[3])
 	for i := 0; i < n; i++ {
 		plan := genFor(profile, prop, runSeed(base, i))
-		res := ExecuteChecked(t, plan, execOptFor(prop))
+		opt := execOptFor(prop)
+		dump := os.Getenv("DSIM_DIGEST_DUMP") == strconv.Itoa(i)
+		opt.Log = dump
+		res := ExecuteChecked(t, plan, opt)
+		if dump {
+			for _, l := range res.Log {
+				fmt.Println("   ", l)
+			}
+			res.Log = nil
+			for k, tr := range res.Trace {
+				fmt.Println("    TRACE", k, tr)
+			}
+		}
 		res.SimTimeNs = 0
 		b, _ := json.Marshal(res)
 		fmt.Printf("%d %016x steps=%d viol=%d herr=%q\n", i, hashBytes(b), res.Steps, len(res.Violations), res.HarnessErr)
